@@ -436,12 +436,34 @@ def check_after(prop, f, m, snap, opinfo, changed_child_ids):
         if tree.flat_structure(g) != tree.flat_structure(f):
             if removed_glued(m, snap): return f'C06: re-parse differs (removed node was glued to the next token); text={text[:300]!r}'
             return f'C06: re-parse differs from the model; text={text[:300]!r}'
+        # (the positional string slots of a transaction are parse slots: writing them directly, instead of through payee / narration, is outside the property's edits)
+        fa, fb = (field_values(f), field_values(g)) if not re.fullmatch(r'(raw_)?string[012]', str(opinfo[1]) if len(opinfo) > 1 else '') else (0, 0)
+        if fa != fb:
+            d_ = next(((x, y) for x, y in zip(fa, fb) if x != y), (fa[-1:], fb[-1:]))
+            return f'C06: re-parse has other field values than the model: {d_[0]} vs {d_[1]}; text={text[:200]!r}'
     if prop == 'C09' and opinfo[0] == 'val' and not (type(m).__name__ == 'Transaction' and opinfo[1] in ('payee', 'narration', 'string0', 'string1', 'string2')) \
             and type(m).__name__ != 'CostSpec':      # the dependent groups are checked against their record models by drivers/special.py
         _, n, v = opinfo
         got = getattr(m, n)
         if got != v: return f'C09: {type(m).__name__}.{n} = {v!r} reads back {got!r}'
     return None
+
+
+_VALUE_KINDS = ('required_value_property', 'optional_string_property', 'optional_decimal_property', 'optional_date_property', 'optional_indented_string_property', 'custom_property', 'property')
+
+
+def field_values(f):
+    """per tree model (document order): the values read through its value-level properties (comments aside) - which FIELD a value sits in, not only which tokens exist"""
+    out = []
+    for m in tree_models(f):
+        vals = []
+        for n, k in props(type(m)):
+            if k not in _VALUE_KINDS or n.startswith('raw_') or n.endswith('_comment') or n in ('first_token', 'last_token', 'token_store', 'tokens', 'indent_by', 'string0', 'string1', 'string2') or 'spacing' in n: continue
+            try: v = getattr(m, n)
+            except Exception as e: v = f'<{type(e).__name__}>'
+            if isinstance(v, (str, int, bool, type(None))) or type(v).__name__ in ('Decimal', 'date'): vals.append((n, repr(v)))
+        out.append((type(m).__name__, tuple(vals)))
+    return out
 
 
 def removed_glued(m, snap):
@@ -493,7 +515,12 @@ def views_consistent(m):
     return None
 
 
-def run_case(prop, docname, ops):
+def run_case(prop, docname, ops, lf=None):
+    if lf:
+        from drivers.common import set_load_factor
+        set_load_factor(lf)
+        try: return run_case(prop, docname, ops)
+        finally: set_load_factor()
     text = _DOCS[docname]
     f = parse(text)
     touch_views(f)
@@ -559,12 +586,16 @@ def run(prop, tier, seed):
         RARE = ('val-falsy', 'unclaim-foreign', 'claim-foreign', 'set-root', 'root-ins', 'root-append', 'root-extend', 'root-setitem', 'root-slice', 'step-set', 'step-del', 'step-set-badlen', 'val-paragraphs',
                 'pop-default-missing', 'setdefault-new', 'setdefault-existing', 'update-two', 'popitem', 'pop-default-existing', 'map-clear', 'map-read', 'pop-int', 'del-int',
                 'remove', 'remove-missing', 'reverse', 'iadd2', 'extend0', 'list-read')
+        # the hand-written documents (each there for one input shape: zero numbers, empty strings, glued tokens, ...) get EVERY operation: their point is a
+        # particular (field, operation) pair, which a sample of 1 in 12 misses; the directive-variant families and the long mixed files are sampled
+        special = [c for c in cases if not re.fullmatch(r'[a-z_]+\d+(\+lead|\+mid)?', c[0]) and not c[0].startswith('mixed')]
+        sp_ = set(special); cases = [c for c in cases if c not in sp_]
         rare = [c for c in cases if c[1][2] in RARE]; rest = [c for c in cases if c[1][2] not in RARE]
         rnd.shuffle(rare); rnd.shuffle(rest)
         by_action = {}
         for c in rare: by_action.setdefault(c[1][2], []).append(c)
         picked = [c for a_ in sorted(by_action) for c in by_action[a_][:90]]
-        cases = picked + rest[:4500]
+        cases = special + picked + rest[:4500]
         # the inputs of the open known findings are run under every seed, so that the KNOWN-FINDING lines do not depend on the sample
         have = set(cases); cases += [c for c in rest[4500:] if c[0] == 'glued' and c[1][2] == 'set-none' and c not in have]
     for name, op in cases:
@@ -575,6 +606,14 @@ def run(prop, tier, seed):
             msg, status = 'driver error: ' + traceback.format_exc()[-600:], 'fail'
         rep.case((name, op), status != 'skip', dict(doc=name, ops=[op]) if rnd.random() < 0.0005 else None)
         if msg: rep.fail(f'{type_name(name, op)}.{classify(op, msg)}', msg, dict(prop=prop, doc=name, ops=[op]))
+    # the same operations on a store of many small blocks (block size 4: every document spans several blocks, edits split and merge them)
+    lf_cases = list(cases); random.Random(seed + 1).shuffle(lf_cases)
+    for name, op in lf_cases[:1500 if tier == 'quick' else 6000]:
+        if not rep.mine((name, op, 'lf4')): continue
+        try: msg, status = run_case(prop, name, [op], lf=4)
+        except Exception: msg, status = 'driver error: ' + traceback.format_exc()[-600:], 'fail'
+        rep.case((name, op, 'lf4'), status != 'skip')
+        if msg: rep.fail(f'{type_name(name, op)}.{classify(op, msg)}[blocks of 4]', msg, dict(prop=prop, doc=name, ops=[op], lf=4))
     # histories of two operations through two different views of the same model (aliasing views: C10, C03, C06)
     pair_docs = docs if tier == 'thorough' else [d for d in docs if d[0] in ('mixed-tags-links', 'txn2', 'open3', 'meta-comments-postings', 'custom1', 'document1')]
     for name, text in pair_docs:
@@ -625,7 +664,7 @@ def type_name(docname, op):
 
 def replay_case(case):
     ops = [tuple(tuple(x) if isinstance(x, list) else x for x in o) for o in case['ops']]
-    msg, status = run_case(case['prop'], case['doc'], ops)
+    msg, status = run_case(case['prop'], case['doc'], ops, lf=case.get('lf'))
     return msg
 
 
